@@ -16,7 +16,7 @@ pub fn def() -> CheckDef {
     CheckDef {
         id: "C21",
         level: "model_checking",
-        rule: "explicit-state BFS over (grammar bytes, output bytes|absent) for one grammar (process_file) and two grammars (process_dir with an out dir) under the alphabet {set grammar to text A / B / erroneous text, non-forced build, non-forced build after touching the grammar, forced build, delete output, replace the version line, flip a digit of the hash line, truncate the hash line, delete the hash line, empty the output}; invariant after every build: build Ok for a file => its output equals the reference forced build of the current text, and if it was already equal its inode and mtime are unchanged; build Err for a file => that file has no output; files the build did not reach are untouched. states/transitions are counted by the search; every transition is an execution of the implementation, so traces_validated = build transitions",
+        rule: "explicit-state BFS over (grammar bytes, output bytes|absent) for one grammar (process_file) and two grammars (process_dir with an out dir) under the alphabet {set grammar to text A / B / a text with an LR conflict / a text with a syntax error / a text with an undefined nonterminal, non-forced build, non-forced build after touching the grammar, forced build, delete output, replace the version line, flip a digit of the hash line, truncate the hash line, delete the hash line, empty the output}; invariant after every build: build Ok for a file => its output equals the reference forced build of the current text, and if it was already equal its inode and mtime are unchanged; build Err for a file => that file has no output; files the build did not reach are untouched. states/transitions are counted by the search; every transition is an execution of the implementation, so traces_validated = build transitions",
         evaluations: "transitions",
         nontrivial: "stale_or_foreign_states_repaired",
         mc: Some(("states", "transitions", "build_transitions")),
@@ -32,6 +32,9 @@ pub fn def() -> CheckDef {
 const TEXT_A: &str = "grammar;\npub S: () = \"a\" => ();\n";
 const TEXT_B: &str = "grammar;\npub S: u8 = { \"b\" \"c\" => 1, \"d\" => 2 };\n";
 const TEXT_E: &str = "grammar;\npub S: () = { \"a\" => (), \"a\" => () };\n";
+// errors of the earlier stages: the parser of grammar files, and name resolution
+const TEXT_P: &str = "grammar;\npub S: () = { \"a\" => () ;;\n";
+const TEXT_N: &str = "grammar;\npub S: () = { \"a\" Missing => () };\n";
 
 type State = Vec<(String, Option<Vec<u8>>)>; // per grammar: (text, output)
 
@@ -147,6 +150,11 @@ fn explore(ctx: &mut Ctx, two: bool, thorough: bool) {
         acts.push(Act::SetText(i, TEXT_A, "A"));
         acts.push(Act::SetText(i, TEXT_B, "B"));
         acts.push(Act::SetText(i, TEXT_E, "E"));
+        // quick, two grammars: the early-stage error texts on the first grammar only
+        if thorough || !two || i == 0 {
+            acts.push(Act::SetText(i, TEXT_P, "P"));
+            acts.push(Act::SetText(i, TEXT_N, "N"));
+        }
         acts.push(Act::DeleteOut(i));
         acts.push(Act::VersionLine(i));
         acts.push(Act::FlipHash(i));
